@@ -161,6 +161,7 @@ Definition wf_op_b (w : world) (o : pop) : bool :=
   | PIpam (OConfigure conf _ delfail) => nil_b delfail && keeps_live_b w conf
   | PIpam _ => false
   | PRestart conf => keeps_live_b w conf
+  | PSyncPod p _ => wf_pod_b p
   | _ => true
   end.
 
@@ -178,6 +179,7 @@ Proof.
       apply orb_true_iff in H. destruct H as [H|H]; apply N.eqb_eq in H; auto.
   - intros H E. by rewrite E in H.
   - apply keyobj_eqb_sound.
+  - apply wf_pod_b_sound.
   - destruct io; try done. rewrite andb_true_iff. intros [H1 H2]. split; [by destruct delfail|by apply keeps_live_b_sound].
   - apply keeps_live_b_sound.
 Qed.
